@@ -35,13 +35,12 @@ inductive Err
   | axis           -- ValueError: the axes can be 'x', 'y' or 'z'
   | angleIndex     -- IndexError: more tilt angles than images
   | binFactor      -- binning factor 0
-  | scalarIdx      -- TypeError: a text index file with a single entry is loaded as a 0-d array (`np.loadtxt`) and cannot be iterated
 deriving Repr, DecidableEq
 
 def Err.name : Err → String
   | .cropWidth => "crop-width" | .cropHeight => "crop-height" | .index => "index" | .emptyIdx => "empty-indices"
   | .singleTilt => "single-tilt" | .emptyStack => "empty-stack" | .axis => "axis" | .angleIndex => "angle-index"
-  | .binFactor => "bin-factor" | .scalarIdx => "scalar-index"
+  | .binFactor => "bin-factor"
 
 variable {α ι κ β : Type}
 
@@ -115,12 +114,11 @@ deriving Repr, DecidableEq
 def base1Of (o : Option Bool) : Bool := o.getD Gen.C15.defaultNumberedFrom1
 
 /-- `indices_load` for the three sources: only lists/arrays are refused when empty; a csv file forces 0-based numbering;
-a text file with exactly one entry comes back from `np.loadtxt` as a 0-d array, on which the bounds check of
-`remove_tilts` raises `TypeError` -/
+a text file is read with `np.atleast_1d(np.loadtxt(...))`, so a file with a single entry is a one-element index list like any other -/
 def removeTiltsSrc (src : IdxSrc) (base1 : Bool) (idxs : List Int) (imgs : List ι) : Except Err (List ι) :=
   match src with
   | .list => removeTilts base1 idxs imgs
-  | .txt => if idxs.length = 1 then .error .scalarIdx else if idxs.isEmpty then .ok imgs else removeTilts base1 idxs imgs
+  | .txt => if idxs.isEmpty then .ok imgs else removeTilts base1 idxs imgs
   | .csv => if idxs.isEmpty then .ok imgs else removeTilts false idxs imgs
 
 /-- the loop `for i in range(n): if i % 2 == r: even.append(...) else: odd.append(...)`,
